@@ -13,6 +13,7 @@ type Node struct {
 	Str        string
 	Lit        string // number literal as written
 	Keys       []string
+	RawKeys    []string // member names as written (between the quotes, escapes intact)
 	Kids       []*Node
 	Start, End int
 }
@@ -67,10 +68,12 @@ func (p *parser) value(depth int) (*Node, error) {
 			if p.i >= len(p.b) || p.b[p.i] != '"' {
 				return nil, fmt.Errorf("expected key at %d", p.i)
 			}
+			k0 := p.i
 			k, err := p.str()
 			if err != nil {
 				return nil, err
 			}
+			raw := string(p.b[k0+1 : p.i-1])
 			p.ws()
 			if p.i >= len(p.b) || p.b[p.i] != ':' {
 				return nil, fmt.Errorf("expected colon at %d", p.i)
@@ -82,6 +85,7 @@ func (p *parser) value(depth int) (*Node, error) {
 				return nil, err
 			}
 			n.Keys = append(n.Keys, k)
+			n.RawKeys = append(n.RawKeys, raw)
 			n.Kids = append(n.Kids, v)
 			p.ws()
 			if p.i >= len(p.b) {
